@@ -210,7 +210,8 @@ EXTRA = {
            "to a strided, reversed, transposed or column view of it, then one in-place statement on any member (NumPy decides view-or-copy).",
     "C06": "perm3 family: a (3, 2, 2) base whose axes were permuted (neither C- nor F-ordered), first contribution through a weight of another "
            "axis order or through the views, views that need the data's layout.",
-    "C07": "Stale-view family: after another backward pass through the base a caller-held view reads None or the view of the new gradient.",
+    "C07": "Stale-view family: after another backward pass through the base a caller-held view reads None or the view of the new gradient; "
+           "the same for views of a C-/F-ordered weight of the recurrent layer (concrete lane on the unpatched library).",
     "C09": "constout family: the shared tensor is updated through out= with an explicit constant= (either way).",
     "C11": "Spelling families with axes given from the end, mixed-sign permutations (2-d, 3-d) and reduction options passed to methods "
            "positionally and by keyword.",
